@@ -5,11 +5,15 @@ Two families of cases
 
 * ``programs()``   - kinetic "programs" for C04: free stoichiometry (catalysts, inactive coefficients, zeroth
   order, several reactions per species), a permuted substance order, per-reaction rate-law kind
-  ("ma" | "arr" | "eyr") with numeric parameters in one exactness mode ("int" | "frac" | "float"), an
-  evaluation point and the knobs of the build configurations.
+  ("ma" | "arr" | "eyr") with numeric parameters in one exactness mode ("int" | "frac" | "float"; rate constants
+  may be exactly zero), an evaluation point and the knobs of the build configurations (including how the optional
+  symbol arguments of the explicit builder are given: ``case["sym"]``).
 * ``composed_systems()`` - systems whose substances all carry a composition (explicit dicts, real formulas
   from hand-checked families, G1-style association complexes), reactions balanced *by construction* from an
-  exact integer null-space of the composition matrix, optionally broken in a controlled way for C05.
+  exact integer null-space of the composition matrix, optionally broken in a controlled way for C05.  With
+  ``dyadic_share`` compositions, charges and coefficients may be non-integers, all dyadic (exact in binary floating
+  point): numbers in compositions are int | float, coefficients int | float | "p/q" (``rx["coef"]`` says which,
+  ``rx["checks"]`` how the Reaction constructor is told to admit them).
 
 Numbers in a case: int -> int, exact rational -> "p/q" string, float -> float.
 Nothing here calls chempy.  The reference semantics lives in ``RefPoly``/``net``/``comp_matrix``.
@@ -73,9 +77,53 @@ def _number(draw, mode, lo_exp=-3, hi_exp=3, allow_zero=False):
 # reactions (shared description):  {"reac": {key: n}, "prod": {...}, "ireac": {...}, "iprod": {...}}
 # ---------------------------------------------------------------------------------------------------
 
+def _coef(x):
+    """Stoichiometric coefficient as written in a case (int | dyadic float | "p/q") -> int or exact Fraction."""
+    return x if isinstance(x, int) else frac(x)
+
+
 def net(rx, key):
-    return (rx["prod"].get(key, 0) - rx["reac"].get(key, 0)
-            + rx.get("iprod", {}).get(key, 0) - rx.get("ireac", {}).get(key, 0))
+    """Net stoichiometric coefficient (int for integer coefficients, exact Fraction otherwise)."""
+    return (_coef(rx["prod"].get(key, 0)) - _coef(rx["reac"].get(key, 0))
+            + _coef(rx.get("iprod", {}).get(key, 0)) - _coef(rx.get("ireac", {}).get(key, 0)))
+
+
+def dyadic(x):
+    """Exact Fraction with a power-of-two denominator -> the JSON number used in a case: int when integral, else the
+    float that represents it exactly."""
+    x = Fraction(x)
+    if x.denominator == 1:
+        return int(x)
+    f = float(x)
+    if Fraction(f) != x:
+        raise ValueError("not a dyadic rational: %s" % x)
+    return f
+
+
+def dyadic_text(x):
+    """Decimal text of a positive dyadic rational as written in a formula subscript ('' for 1, '2', '2.25', '0.03125')."""
+    x = Fraction(x)
+    if x == 1:
+        return ""
+    if x.denominator == 1:
+        return str(int(x))
+    t = ("%.20f" % float(x)).rstrip("0")
+    if Fraction(t) != x:
+        raise ValueError("no exact decimal text: %s" % x)
+    return t
+
+
+def encode_coef(x, style):
+    """Fraction -> coefficient as written in a case: style 'int' (must be integral), 'float' (always a float, also for
+    integral values: 2.0), 'frac' (always "p/q": handed to chempy as a Fraction)."""
+    x = Fraction(x)
+    if style == "int":
+        if x.denominator != 1:
+            raise ValueError("non-integer coefficient in integer style")
+        return int(x)
+    if style == "float":
+        return float(dyadic(x))
+    return "%d/%d" % (x.numerator, x.denominator)
 
 
 def rx_keys(rx):
@@ -319,13 +367,14 @@ def comp_matrix(subs):
 
 
 def violations(subs, rx):
-    """{composition key: net amount produced} for the non-zero entries."""
+    """{composition key: net amount produced} for the non-zero entries (exact: int, or Fraction when compositions or
+    coefficients are not integers)."""
     out = {}
     for s in subs:
         n = net(rx, s["key"])
         if n:
             for k, v in s["comp"].items():
-                out[int(k)] = out.get(int(k), 0) + n * v
+                out[int(k)] = out.get(int(k), 0) + n * _coef(v)
     return {k: v for k, v in out.items() if v != 0}
 
 
@@ -378,21 +427,36 @@ FAMILIES = {
               _sp("H2O", 0, H=2, O=1), _sp("HCl", 0, H=1, Cl=1)],
 }
 FAMILY_NAMES = ["water", "iron", "carbonate", "copper", "nitrogen", "combustion", "salts"]
+# non-stoichiometric compounds: decimal subscripts (all dyadic, so every balanced reaction has an exactly zero float net)
+FAMILIES["urania"] = [_sp("UO2", 0, U=1, O=2), _sp("UO2.25", 0, U=1, O=2.25), _sp("UO2.5", 0, U=1, O=2.5),
+                      _sp("U4O9", 0, U=4, O=9), _sp("U3O8", 0, U=3, O=8), _sp("(UO2.25)2", 0, U=2, O=4.5), _sp("O2", 0, O=2),
+                      _sp("O", -2, O=1), _sp("U", 4, U=1), _sp("UO2", 2, U=1, O=2), _sp("e", -1), _sp("UO2.125", 0, U=1, O=2.125),
+                      _sp("U0.5O", 0, U=0.5, O=1), _sp("O3", 0, O=3)]
+FAMILIES["ferrites"] = [_sp("Fe0.875O", 0, Fe=0.875, O=1), _sp("FeO", 0, Fe=1, O=1), _sp("Fe2O3", 0, Fe=2, O=3),
+                        _sp("Fe3O4", 0, Fe=3, O=4), _sp("Fe", 2, Fe=1), _sp("Fe", 3, Fe=1), _sp("O2", 0, O=2), _sp("O", -2, O=1),
+                        _sp("e", -1), _sp("Fe0.75O", 0, Fe=0.75, O=1), _sp("Na0.5WO3", 0, Na=0.5, W=1, O=3),
+                        _sp("WO3", 0, W=1, O=3), _sp("Na", 1, Na=1), _sp("Na0.25WO3", 0, Na=0.25, W=1, O=3),
+                        _sp("[Fe0.5O]2.5", 0, Fe=1.25, O=2.5)]
+DYADIC_FAMILY_NAMES = ["urania", "ferrites"]
 
 _EL_SMALL = ["H", "C", "O", "N", "Fe", "Cl", "Na", "Cu", "S", "Co"]
 
 
-def _g1_base(draw):
-    """A small G1 AST (no decimals, hydrates, prefixes, suffixes) plus its integer charge."""
+def _g1_base(draw, dy=False):
+    """A small G1 AST (no hydrates, prefixes, suffixes; decimal subscripts only with dy, all dyadic) plus its integer
+    charge."""
     terms = []
+    inner_counts = ["", "2", "3"] + (["0.5", "1.5", "0.125"] if dy else [])
+    group_counts = ["2", "3", "4"] + (["0.5", "2.5", "1.25"] if dy else [])
+    counts = ["", "", "2", "3", "12"] + (["2.25", "0.5", "0.875", "1.5", "2.125"] if dy else [])
     for _ in range(draw(st.integers(1, 3))):
         if draw(st.integers(0, 9)) >= 7:
-            inner = [{"el": draw(st.sampled_from(_EL_SMALL)), "count": draw(st.sampled_from(["", "2", "3"])), "primes": ""}
+            inner = [{"el": draw(st.sampled_from(_EL_SMALL)), "count": draw(st.sampled_from(inner_counts)), "primes": ""}
                      for _ in range(draw(st.integers(1, 2)))]
             terms.append({"br": draw(st.sampled_from(["(", "[", "{"])), "terms": inner,
-                          "count": draw(st.sampled_from(["2", "3", "4"])), "primes": ""})
+                          "count": draw(st.sampled_from(group_counts)), "primes": ""})
         else:
-            terms.append({"el": draw(st.sampled_from(_EL_SMALL)), "count": draw(st.sampled_from(["", "", "2", "3", "12"])),
+            terms.append({"el": draw(st.sampled_from(_EL_SMALL)), "count": draw(st.sampled_from(counts)),
                           "primes": ""})
     q = draw(st.sampled_from([0, 0, 1, -1, 2, -2, 3]))
     return terms, q
@@ -410,7 +474,7 @@ def _ast_species(terms, q):
     comp = {}
     for z, v in G.composition(f).items():
         if v != 0:
-            comp[str(z)] = int(v)
+            comp[str(z)] = dyadic(v)
     return {"key": G.text(f), "comp": comp}
 
 
@@ -419,8 +483,15 @@ def _nullity(subs):
     return len(subs) - rank(rows)
 
 
-def _draw_substances(draw):
-    """Returns (kind, [ {key, how, comp, [charge_arg]} ]) with nullity >= 1 by construction."""
+SYNTHETIC_CHARGES = [0, 0, 1, -1, 2, -2]
+SYNTHETIC_COUNTS_DYADIC = [0, 1, 2, 3, 1, 2, 0.5, 1.5, 2.25, 0.25, 0.125, 2.5, 0.875]
+SYNTHETIC_CHARGES_DYADIC = [0, 0, 0.5, -0.5, 1, 0.25, -1.5, -1, 0.125, 2.5]
+
+
+def _draw_substances(draw, dy=False):
+    """Returns (kind, [ {key, how, comp, [charge_arg]} ]) with nullity >= 1 by construction.
+
+    dy: compositions and charges need not be integers (multiples of 1/8; decimal subscripts in formulas)."""
     kind = draw(st.sampled_from(["synthetic", "family", "family", "g1"]))
     subs = []
     if kind == "synthetic":
@@ -431,23 +502,23 @@ def _draw_substances(draw):
         for i in range(ns):
             comp = {}
             for z in elems:
-                c = draw(st.integers(0, 3))
+                c = draw(st.sampled_from(SYNTHETIC_COUNTS_DYADIC)) if dy else draw(st.integers(0, 3))
                 if c:
                     comp[str(z)] = c
             if not comp:
                 comp[str(elems[0])] = 1
             s = {"key": "S%d" % i, "how": "explicit", "comp": comp}
             if charged:
-                q = draw(st.sampled_from([0, 0, 1, -1, 2, -2]))
+                q = draw(st.sampled_from(SYNTHETIC_CHARGES_DYADIC if dy else SYNTHETIC_CHARGES))
                 if q:
                     comp["0"] = q
                     s["charge_arg"] = draw(st.booleans())     # charge passed as Substance(charge=..)
             subs.append(s)
     elif kind == "family":
-        fam = FAMILIES[draw(st.sampled_from(FAMILY_NAMES))]
+        fam = FAMILIES[draw(st.sampled_from(DYADIC_FAMILY_NAMES if dy else FAMILY_NAMES))]
         perm = draw(st.permutations(fam))
         want = draw(st.integers(1, 3))
-        how = draw(st.sampled_from(["formula", "formula", "explicit"]))
+        how = draw(st.sampled_from(["formula", "explicit", "explicit"] if dy else ["formula", "formula", "explicit"]))
         for sp in perm:
             subs.append({"key": sp["body"] + charge_text(sp["q"]), "how": how, "comp": dict(sp["comp"]),
                          "body": sp["body"], "q": sp["q"]})
@@ -459,7 +530,7 @@ def _draw_substances(draw):
         bases = []
         texts = set()
         for _ in range(draw(st.integers(1, 3))):
-            terms, q = _g1_base(draw)
+            terms, q = _g1_base(draw, dy)
             sp = _ast_species(terms, q)
             if sp["key"] not in texts:
                 texts.add(sp["key"])
@@ -514,7 +585,29 @@ def _vector_to_rx(draw, vec, subs):
     return rx
 
 
-def _balanced_reactions(draw, subs, max_rxn):
+PARTS = ("reac", "prod", "ireac", "iprod")
+
+
+def _scale_reaction(draw, rx):
+    """Non-integer stoichiometric coefficients: every coefficient times a dyadic factor (the reaction stays balanced),
+    written as floats or as "p/q" (Fractions), and the way the Reaction constructor is told to admit them
+    (Reaction.default_checks contains 'all_integral': dont_check={'all_integral'} or an explicit checks=...).
+    Integral values written as floats (2.0) pass the default checks."""
+    k = draw(st.integers(0, 5))
+    if k < 3:
+        return
+    f = Fraction(1) if k == 3 else Fraction(draw(st.sampled_from([1, 1, 3, 5])), draw(st.sampled_from([2, 4, 8])))
+    rx["coef"] = draw(st.sampled_from(["float", "frac"]))
+    integral = True
+    for part in PARTS:
+        for key in list(rx[part]):
+            v = f * _coef(rx[part][key])
+            integral = integral and v.denominator == 1
+            rx[part][key] = encode_coef(v, rx["coef"])
+    rx["checks"] = draw(st.sampled_from((["default"] if integral else []) + ["dont_check", "checks"]))
+
+
+def _balanced_reactions(draw, subs, max_rxn, dy=False):
     rows, _ = comp_matrix(subs)
     basis = nullspace_int(rows, len(subs))
     nr = draw(st.integers(1, max_rxn))
@@ -533,24 +626,93 @@ def _balanced_reactions(draw, subs, max_rxn):
         if stoich_signature(rx) in seen:
             continue
         seen.add(stoich_signature(rx))
+        if dy:
+            _scale_reaction(draw, rx)
         rxns.append(rx)
     return rxns
 
 
-def _break(draw, subs, rxns):
-    """Breaks the balance of one reaction in a controlled way.  Returns a label (the description is edited in place)."""
+def _bump_coef(rx, part, key, d):
+    """Coefficient of `key` in rx[part] increased by d; the way the reaction is written follows (float coefficients and
+    dont_check={'all_integral'} once a coefficient is not an integer)."""
+    style = rx.get("coef", "int")
+    v = _coef(rx[part].get(key, 0)) + d
+    if Fraction(v).denominator != 1:
+        if style == "int":
+            style = rx["coef"] = "float"
+            for p_ in PARTS:
+                for k_ in list(rx[p_]):
+                    rx[p_][k_] = encode_coef(_coef(rx[p_][k_]), style)
+        if rx.get("checks", "default") == "default":
+            rx["checks"] = "dont_check"
+    rx[part][key] = encode_coef(v, style)
+
+
+def _break_small(draw, subs, rxns, r, mode, active):
+    """Dyadic variant of the single-key classes: the charge (explicitly composed substances only: a formula cannot carry
+    a fractional charge) or one element count of one substance of reaction r changes by d = m / P, where m is 1/8 .. 3/2
+    and P the smallest power of two >= the largest |net coefficient| of that substance in any reaction; the largest
+    imbalance in the system is then in (m/2, m] in that one key, and every number stays exactly representable."""
+    rx = rxns[r]
+    bykey = {s["key"]: s for s in subs}
+    pool = sorted(active)
+    if mode == "charge":
+        pool = [k for k in pool if bykey[k]["how"] != "formula"] or pool
+    s = bykey[draw(st.sampled_from(pool))]
+    nmax = max(abs(net(x, s["key"])) for x in rxns)
+    p2 = Fraction(1, 8)
+    while p2 < nmax:
+        p2 *= 2
+    d = Fraction(draw(st.sampled_from([1, 2, 3, 4, 4, 6, 8, 12])), 8) / p2
+    if d.denominator > 2 ** 16:
+        return None
+    if mode == "charge" and s["how"] != "formula":
+        q = _coef(s["comp"].get("0", 0)) + d * draw(st.sampled_from([1, -1]))
+        if q:
+            s["comp"]["0"] = dyadic(q)
+        else:
+            s["comp"].pop("0", None)
+            s.pop("charge_arg", None)
+        return "broken:charge_only", r
+    if s["how"] == "formula":
+        for el in draw(st.permutations(["He", "H", "O", "Ar"])):
+            new_key = el + dyadic_text(d) + s["key"]
+            if new_key in bykey:
+                continue
+            _rename(subs, rxns, s["key"], new_key)
+            if "body" in s:
+                s["body"] = el + dyadic_text(d) + s["body"]
+            z = str(Z_OF[el])
+            s["comp"][z] = dyadic(_coef(s["comp"].get(z, 0)) + d)
+            return "broken:one_element", r
+        return None
+    ks = sorted(k for k in s["comp"] if k != "0")
+    z = draw(st.sampled_from(ks + ["2"]))
+    s["comp"][z] = dyadic(_coef(s["comp"].get(z, 0)) + d)
+    return "broken:one_element", r
+
+
+def _break(draw, subs, rxns, dy=False):
+    """Breaks the balance of one reaction in a controlled way.  Returns a label (the description is edited in place).
+
+    dy: the change need not be an integer (imbalances of 1/8 .. 1/2 in one key must be rejected like any other)."""
     r = draw(st.integers(0, len(rxns) - 1))
     rx = rxns[r]
     bykey = {s["key"]: s for s in subs}
     active = [k for k in rx_keys(rx) if net(rx, k) != 0 and k != "e-"]
     mode = draw(st.sampled_from(["charge", "charge", "element", "element", "coef", "drop"]))
+    if dy and mode in ("charge", "element") and draw(st.integers(0, 4)):
+        done = _break_small(draw, subs, rxns, r, mode, active)
+        if done is not None:
+            return done
+        mode = "coef"
     if mode in ("charge", "element"):
         s = bykey[draw(st.sampled_from(sorted(active)))]
         taken = set(bykey)
         if mode == "charge":
             q0 = s["comp"].get("0", 0)
             for d in draw(st.permutations([1, -1, 2, -2])):
-                q = q0 + d
+                q = dyadic(_coef(q0) + d)
                 if s["how"] == "formula":
                     if "body" not in s:      # G1 species: re-render is not available -> fall back to the coefficient class
                         break
@@ -576,18 +738,18 @@ def _break(draw, subs, rxns):
                     if "body" in s:
                         s["body"] = el + s["body"]
                     z = str(Z_OF[el])
-                    s["comp"][z] = s["comp"].get(z, 0) + 1
+                    s["comp"][z] = dyadic(_coef(s["comp"].get(z, 0)) + 1)
                     return "broken:one_element", r
                 mode = "coef"
             else:
                 ks = sorted(k for k in s["comp"] if k != "0")
                 z = draw(st.sampled_from(ks + ["2"]))
-                s["comp"][z] = s["comp"].get(z, 0) + 1
+                s["comp"][z] = dyadic(_coef(s["comp"].get(z, 0)) + 1)
                 return "broken:one_element", r
     if mode == "coef":
         s = draw(st.sampled_from(subs))["key"]
         part = draw(st.sampled_from(["reac", "prod", "prod", "ireac", "iprod"]))
-        rx[part][s] = rx[part].get(s, 0) + 1
+        _bump_coef(rx, part, s, Fraction(1, draw(st.sampled_from([1, 2, 4, 8]))) if dy else 1)
         return "broken:coefficient", r
     # drop one species from one side (if that leaves the reaction with an effect), else bump a coefficient
     part = "prod" if rx["prod"] else "reac"
@@ -597,7 +759,7 @@ def _break(draw, subs, rxns):
         if any(net(rx, k) != 0 for k in rx_keys(rx)):
             return "broken:dropped_species", r
     s = draw(st.sampled_from(subs))["key"]
-    rx["prod"][s] = rx["prod"].get(s, 0) + 1
+    _bump_coef(rx, "prod", s, 1)
     return "broken:coefficient", r
 
 
@@ -612,14 +774,17 @@ def _rename(subs, rxns, old, new):
 
 
 @st.composite
-def composed_systems(draw, max_rxn=6, broken=None, kinetics=False):
+def composed_systems(draw, max_rxn=6, broken=None, kinetics=False, dyadic_share=0):
     """A system whose substances all carry compositions.
 
     broken: None -> drawn (about half of the cases get one broken reaction); False -> always balanced.
     kinetics: add rate constants, an initial state, output times and the knobs of the C05 dynamic checks.
+    dyadic_share: tenths of the cases whose compositions, charges and stoichiometric coefficients need not be integers
+    (multiples of 1/8 .. 1/64: exactly representable, so "balanced" still means an exactly zero float net).
     """
-    kind, subs = _draw_substances(draw)
-    rxns = _balanced_reactions(draw, subs, max_rxn)
+    dy = dyadic_share > 0 and draw(st.integers(0, 9)) >= 10 - dyadic_share
+    kind, subs = _draw_substances(draw, dy)
+    rxns = _balanced_reactions(draw, subs, max_rxn, dy)
     # only substances that take part in some reaction stay (the ODE builders reject isolated substances);
     # the order of the remaining ones is permuted
     used = []
@@ -629,13 +794,13 @@ def composed_systems(draw, max_rxn=6, broken=None, kinetics=False):
                 used.append(k)
     subs = [s for s in subs if s["key"] in used]
     subs = list(draw(st.permutations(subs)))
-    case = {"kind": kind, "subs": subs, "rxns": rxns, "cls": "balanced", "broken_at": None,
+    case = {"kind": kind, "subs": subs, "rxns": rxns, "cls": "balanced", "broken_at": None, "dyadic": dy,
             # how the system is constructed: OrderedDict of Substance objects | list of keys + from_formula |
             # EqSystem of Equilibrium objects (only used by the admission check)
             "route": draw(st.sampled_from(["objects", "objects", "keys", "eqsys"]))}
     do_break = (draw(st.integers(0, 9)) >= 4) if broken is None else broken
     if do_break:
-        case["cls"], case["broken_at"] = _break(draw, subs, rxns)
+        case["cls"], case["broken_at"] = _break(draw, subs, rxns, dy)
     if kinetics:
         mode = "float"
         for rx in rxns:
